@@ -280,7 +280,7 @@ def priority_orders(K, workers, last=(0,)):
 
 INV_NAMES = {1: 'work_units above the worker count', 2: 'in_slots above the total', 4: 'out_slots above the total (or taken below zero)',
              8: 'live heap above the bound', 16: 'slot totals above the documented per-worker constants', 256: 'heap block overrun (write behind an allocation)',
-             512: 'data race', 1024: 'heap blocks never released at successful exit'}
+             512: 'data race', 1024: 'heap blocks never released at successful exit', 2048: 'file descriptors left open at successful exit'}
 
 def inv_text(inv, note=''):
     names = [n for b, n in INV_NAMES.items() if inv & b]
